@@ -23,6 +23,7 @@ import (
 	"github.com/thushan/olla/internal/core/domain"
 	"github.com/thushan/olla/internal/zz_verif/anth"
 	"github.com/thushan/olla/internal/zz_verif/scen"
+	"github.com/thushan/olla/internal/adapter/proxy/olla"
 	"github.com/thushan/olla/internal/zz_verif/stack"
 	"github.com/thushan/olla/internal/zz_verif/vlib"
 )
@@ -33,6 +34,11 @@ type Scenario struct {
 	Enabled bool     `json:"enabled"` // translators.anthropic.passthrough_enabled
 	Stream  bool     `json:"stream"`
 	Refuse  []bool   `json:"refuse"`  // endpoint i refuses connections
+	// Fault[i]: endpoint i accepts the connection and closes it without answering ("close0"); BreakerOpen[i]: the olla
+	// engine's breaker for endpoint i is open when the request is sent (read from the engine, a result of the
+	// requests before it on the same stack)
+	Fault       []string `json:"fault,omitempty"`
+	BreakerOpen []bool   `json:"breaker_open,omitempty"`
 	Invalid bool     `json:"invalid"` // the request fails Anthropic validation (no messages)
 	Engine  string   `json:"engine"`
 	Salt    string   `json:"salt"`
@@ -136,6 +142,20 @@ func runPlan(p *plan) []*Obs {
 			if sc.Refuse[i] {
 				b.Refuse()
 			}
+			name := b.Name
+			if i < len(sc.Fault) && sc.Fault[i] == "close0" {
+				b.SetScript(func(int, *stack.Seen) stack.Behaviour { return stack.Behaviour{Kind: "close0"} })
+			} else {
+				b.SetScript(func(_ int, sn *stack.Seen) stack.Behaviour { return anth.OKAnswer(name, sn) })
+			}
+		}
+		if len(sc.Fault) > 0 {
+			sc.BreakerOpen = make([]bool, len(bes))
+			if svc, ok := s.Proxy.(*olla.Service); ok {
+				for i, b := range bes {
+					sc.BreakerOpen[i] = svc.GetCircuitBreaker(b.Name).IsOpen()
+				}
+			}
 		}
 		body := anth.AnthropicBody(anth.Model, sc.Stream, sc.Salt)
 		if sc.Invalid {
@@ -235,6 +255,21 @@ func main() {
 		}
 		if withInvalid {
 			reqs = append(reqs, &Scenario{Types: ts, Enabled: enabled, Stream: false, Refuse: make([]bool, len(ts)), Invalid: true, Engine: engine})
+		}
+		// a history: every native endpoint closes the connection without answering, request after request (the
+		// engine's breaker for it opens on the way), then one more request once the endpoints behave again.
+		// Last in the plan: an open breaker stays open for the rest of the stack's life.
+		if anyNative && len(ts) > 1 && enabled {
+			fl := make([]string, len(ts))
+			for i, t := range ts {
+				if rawNative(t) {
+					fl[i] = "close0"
+				}
+			}
+			for k := 0; k < 7; k++ {
+				reqs = append(reqs, &Scenario{Types: ts, Enabled: enabled, Stream: k%2 == 1, Refuse: make([]bool, len(ts)), Fault: fl, Engine: engine})
+			}
+			reqs = append(reqs, &Scenario{Types: ts, Enabled: enabled, Stream: false, Refuse: make([]bool, len(ts)), Fault: make([]string, len(ts)), Engine: engine})
 		}
 		for _, q := range reqs {
 			q.Salt = fmt.Sprintf("s%d", r.Intn(1<<30))
